@@ -92,7 +92,8 @@ def gate():
 
 
 def regenerate():
-    """Regenerate coq/theories/Gen/*.v from REPO's working tree (fail-closed translator)."""
+    """Regenerate coq/theories/Gen/*.v from REPO's working tree (fail-closed translator).
+    A section that fails removes its file, so exactly the proofs importing it stop compiling."""
     rc, out = sh([PY, os.path.join(VERIF, "harness", "translate_tables.py"), REPO, os.path.join(THEORIES, "Gen")],
                  timeout=120)
     return rc == 0, out
@@ -335,18 +336,19 @@ TRUSTED_COMMON = [
 ]
 
 
-def standard_prelude(prop, rep, whitelist=()):
-    """gate + regenerate + build + proof gate. Returns (proof_info, broken: list[str])."""
+def standard_prelude(prop, rep, whitelist=(), extra_targets=()):
+    """gate + regenerate + build (the property's own closure) + proof gate.
+    Returns (proof_info, broken: list[str]).  extra_targets: further .vo files (relative to coq/)
+    the check needs, e.g. the correspondence functions "theories/DictList/Check.vo"."""
     broken = []
     g = gate()
     if g:
         broken.append("gate: forbidden construct(s): " + "; ".join(g[:5]))
-    ok, out = regenerate()
+    ok_gen, out_gen = regenerate()
+    ok, out = build(["theories/Properties/%s.vo" % prop] + list(extra_targets))
     if not ok:
-        broken.append("translator failed (source shape no longer recognised): " + out[-800:])
-    ok, out = build()
-    if not ok:
-        broken.append("make failed: " + out[-1500:])
+        broken.append("make failed: " + out[-1500:] +
+                      ("" if ok_gen else "\ntranslator (source shape no longer recognised): " + out_gen[-800:]))
     info = proof_gate(prop, whitelist) if ok else dict(ok=False, obligations=0, discharged=0, axioms=[],
                                                        unexpected_axioms=[], log=out[-1500:],
                                                        checker_cmd="cd %s && make" % COQ, rc=1)
